@@ -142,6 +142,8 @@ def judge(rec, sp, r):
         for stem, fl in sp["decl_flags"].items():
             for lang in ("fortran", "python", "lua", "c"):
                 text = text_by_lang[lang]
+                for a in sp.get("aux_names", {}).get(stem, []):
+                    text = re.sub(r"[a-z0-9_]*%s[a-z0-9_]*" % re.escape(a), " ", text)
                 if lang == "fortran" and fl["c"] and not fl["fortran"]:
                     # by design every C wrapper gets a bind(C) interface named c_* in the module
                     # (wrapf.wrap_functions); only user-facing entities count as the Fortran wrapper
@@ -203,6 +205,7 @@ def main(rec):
             sp["group"] = (c["name"], fc, ff)
             specs.append(sp)
     # generated libraries with per-declaration overrides
+    extra_specs = []
     libs = gen.libraries(thorough, count=(80 if thorough else 16), salt="c15")
     libs = [x for x in libs if x[0].startswith("gmix")] + [x for i, x in enumerate(libs) if not x[0].startswith("gmix") and (thorough or i % 5 == common.seed() % 5)]
     for name, d, meta in libs:
@@ -213,15 +216,19 @@ def main(rec):
             lib_flags["c"] = 1
             d["options"]["wrap_c"] = True
         decl_flags = {}
+        stem_opts = {}
+        aux = {}
         rows = {x["id"]: x for x in gen.R.ROWS}
         for ent in d["declarations"]:
             dec = ent["decl"]
             m = re.search(r"\b(f\d+[a-z0-9]+)", dec)
+            if m and dec.lstrip().startswith(("enum", "struct", "typedef")):
+                # types carry no wrap flag: their names (and enumerators / members) are not the function's wrapper
+                aux.setdefault(m.group(1), set()).update(x.lower() for x in re.findall(r"\b%s_\w+" % re.escape(m.group(1)), dec))
             if not m or dec.lstrip().startswith(("enum", "struct", "typedef", "namespace", "extern")):
                 continue
             stem = m.group(1)
-            if stem in decl_flags:
-                continue
+            first = stem not in decl_flags
             fl = dict(lib_flags)
             if r.random() < 0.6:
                 ov = {}
@@ -235,15 +242,66 @@ def main(rec):
                 sup = rows[rowid]["wraps"] if rowid else ()
                 ov = {k: v for k, v in ov.items() if not v or k in sup}
                 if ov:
-                    ent.setdefault("options", {}).update({"wrap_" + k: bool(v) for k, v in ov.items()})
+                    stem_opts[stem] = {"wrap_" + k: bool(v) for k, v in ov.items()}
+                    ent.setdefault("options", {}).update(stem_opts[stem])
                     fl.update(ov)
-            decl_flags[stem] = fl
+            if (re.search(r"std::vector\s*<[^>]*>\s*[&*]?\s*\w+\s*[,)+]", dec) or re.match(r"\s*(const\s+)?std::string\s+\w+\s*\(", dec)) and not fl["fortran"]:
+                # a function with std::vector arguments or a std::string result by value has no plain C entry point
+                # (only the Fortran-facing bufferify one, see vf/drivers/c.py): without Fortran nothing is emitted in C
+                fl.setdefault("lang_ok", {})["c"] = False
+            if first:
+                decl_flags[stem] = fl
+            elif {k: fl[k] for k in ("c", "fortran", "python", "lua")} != {k: decl_flags[stem][k] for k in ("c", "fortran", "python", "lua")}:
+                # several entries of one row share a stem (overloads, base and derived class) and their flags differ:
+                # presence of the stem in an output says nothing about one entry (the toggle comparison still applies)
+                decl_flags[stem]["lang_ok"] = {k: False for k in ("c", "fortran", "python", "lua")}
         das = dir_assignment(r)
         y = workloads.dump_yaml(d)
         sp = make_spec(name, "work/%s.yaml" % name, y, None, [], lib_flags, das, decl_flags)
         sp["lang"] = d["language"]
-        # several entries of one row share a stem (overloads): flags must agree, else skip the stem
+        sp["aux_names"] = {k: sorted(v, key=len, reverse=True) for k, v in aux.items()}
+        # the same description with the library-level Python / Lua switches flipped: C and Fortran bytes must not move
+        sp["group"] = ("ovr", name)
+        for which in ("wrap_python", "wrap_lua"):
+            d2 = copy.deepcopy(d)
+            d2["options"][which] = not d2["options"].get(which, False)
+            sp2 = make_spec(name + "~" + which, "work/%s.yaml" % name, workloads.dump_yaml(d2), None, [], dict(lib_flags, **{which[5:]: int(d2["options"][which])}), das, {})
+            sp2["lang"] = d["language"]
+            sp2["group"] = ("ovr", name)
+            sp2["toggle_only"] = True
+            extra_specs.append(sp2)
         specs.append(sp)
+    # overload sets of which one member is switched off for C and Fortran only (it then follows the library-level
+    # Python / Lua switches): the names of the remaining members must not depend on those switches
+    for name, d, meta in libs:
+        ents = [e for e in d["declarations"] if re.search(r"\b(f\d+[a-z0-9]+)\s*\(", e["decl"])]
+        by = {}
+        for e in ents:
+            by.setdefault(re.search(r"\b(f\d+[a-z0-9]+)\s*\(", e["decl"]).group(1), []).append(e)
+        multi = {k: v for k, v in by.items() if len(v) > 1}
+        if not multi or not (d["options"].get("wrap_c") or d["options"].get("wrap_fortran")):
+            continue
+        for which in (0, -1):
+            base = copy.deepcopy(d)
+            base["options"].update({"wrap_c": True, "wrap_python": False, "wrap_lua": False})
+            for e in base["declarations"]:
+                m = re.search(r"\b(f\d+[a-z0-9]+)\s*\(", e["decl"])
+                if m and m.group(1) in multi and e["decl"] == multi[m.group(1)][which]["decl"]:
+                    e.setdefault("options", {}).update({"wrap_c": False, "wrap_fortran": False})
+            das = dir_assignment(r)
+            for tog in (None, "wrap_python", "wrap_lua"):
+                d2 = copy.deepcopy(base)
+                if tog:
+                    d2["options"][tog] = True
+                nm = "%s~partial%d~%s" % (name, which, tog or "off")
+                sp2 = make_spec(nm, "work/%s.yaml" % name, workloads.dump_yaml(d2), None, [],
+                                {"c": 1, "fortran": int(d2["options"]["wrap_fortran"]), "python": int(d2["options"]["wrap_python"]),
+                                 "lua": int(d2["options"]["wrap_lua"])}, das, {})
+                sp2["lang"] = d["language"]
+                sp2["group"] = ("partial", name, which)
+                sp2["toggle_only"] = True
+                extra_specs.append(sp2)
+    specs.extend(extra_specs)
     res = pool.run_cases("vf.shroudrun", specs, timeout=300)
     groups = {}
     for sp, rr in zip(specs, res):
@@ -254,7 +312,8 @@ def main(rec):
         rec.case(key="%s|%s|%s" % (sp["name"], sorted(sp["diras"].items()), len(sp["decl_flags"])) if nfiles > 2 else None,
                  sample={"name": sp["name"], "flags": sp["flags"], "dirs": sp["diras"],
                          "files": sorted(f["rel"] + ":" + f["kind"] for f in rr["events"]["files"])[:12]})
-        judge(rec, sp, rr)
+        if not sp.get("toggle_only"):
+            judge(rec, sp, rr)
         if "group" in sp:
             groups.setdefault(tuple(sp["group"]), []).append((sp, rr))
     # (2) toggling python / lua never changes C or Fortran files
